@@ -34,11 +34,11 @@ def elem_spec(r: random.Random, cls: str, d: int, boundary: bool = True) -> dict
     if cls == "HypersphereART":
         alpha = r.choice([2.0 ** -10, 0.25, 0.0]) if rho > 0 else r.choice([2.0 ** -10, 0.25])
         return {"cls": cls, "rho": rho, "alpha": alpha, "beta": r.choice([1.0, 0.5]),
-                "r_hat": r.choice([1.0, 2.0, 0.5 * math.ceil(2 * math.sqrt(d))])}
+                "r_hat": r.choice([1.0, 2.0, 0.5 * math.ceil(2 * math.sqrt(d)), 0.5, 0.25])}
     if cls == "EllipsoidART":
         alpha = r.choice([2.0 ** -10, 0.25, 0.0]) if rho > 0 else r.choice([2.0 ** -10, 0.25])
         return {"cls": cls, "rho": rho, "alpha": alpha, "beta": r.choice([1.0, 0.5]),
-                "mu": r.choice([1.0, 0.5, 0.75]), "r_hat": r.choice([1.0, 2.0, 4.0])}
+                "mu": r.choice([1.0, 0.5, 0.75]), "r_hat": r.choice([1.0, 2.0, 4.0, 0.5])}
     if cls == "GaussianART":
         return {"cls": cls, "rho": r.choice([0.0, 0.25, 0.5, 0.75]), "sigma_init": [r.choice([0.25, 0.5, 1.0])] * d,
                 "alpha": r.choice([1e-10, 2.0 ** -10])}
